@@ -38,7 +38,7 @@ META = {
             "(name, line inside source, range valid slice, shift invariance, some error on the lines of the failing operation's own "
             "tokens, formatting never panics) on the located error chains of ~3000 failing templates: one construct per fallible "
             "interpreter row x contexts, span-less code generator sites x span-stack contexts x sub-expression kinds, failing "
-            "prints in every construct, syntax errors at every token position, under 7x4 shifts, the three token-gap layouts, 14 "
+            "prints in every construct, syntax errors at every token position, under 7x4 shifts, the three token-gap layouts and the trimmed own-line layout, 16 "
             "environment configurations and the entry points render / render_str / render_named_str / template_from_str / "
             "template_from_named_str / add_template_owned / loader / render_block / call_macro / compile_expression+eval.",
     "design_ref": "DESIGN.md §3 C14",
@@ -74,6 +74,14 @@ META = {
                   "the real parser incl. the grammar-drawn ones; which parser site starts its span where is decided on the "
                   "regenerated table, source_tie_parser_spans), h_root, h_one_generator (no {% block %} sub-generator inside the "
                   "program: blocks stay VALIDATED by the cga stream, the bookkeeping per generator is the proved one), h_size. "
+                  "(4) block bodies: block_body_tables_answer_execL — the same table theorem for the sub-generator of a {% block %} "
+                  "(new_subgenerator: line and innermost span carried over, empty instruction list), whatever is suspended below it; "
+                  "(5) every_node_span_covers_its_tokens: over the REGENERATED parser table, every Spanned::new site that is not a "
+                  "listed last_span() site builds a span from the first to the last token of its construct for every token stream "
+                  "(composition of source_tie_parser_spans and span_covers_construct); (6) instr_span_is_node_span: new regenerated "
+                  "table C14_CODEGEN_SPAN_ARGS (every push_span / set_line_from_span / add_with_span call of codegen.rs with the span "
+                  "it is handed), decided: each is <node>.span() of the arm's AST node, the span parameter of one of the three "
+                  "helpers, or the innermost pushed span. "
                   "STILL ONLY VALIDATED: the parser grammar itself (that a parse function consumes exactly the tokens of its "
                   "construct), the tokenizer rules' use of the location primitives, the sub-generator hand-over of blocks in the "
                   "end-to-end theorem, Error's accessors / Display / Debug and render_debug_info's text (their arithmetic is "
@@ -83,14 +91,18 @@ META = {
                   "control, line breaks between the tokens of a tag) feed ast (every span of every node a valid slice, start <= end, "
                   "line/column as the model computes), stm, cga/cge (span start classification, wf, model code generator = real per-pc "
                   "tables) and — rendered as they are, every second one under strict undefined — the err stream (static predicates "
-                  "and shift invariance of the whole chain); every error of the err stream is additionally formatted in its 5 forms "
+                  "and shift invariance of the whole chain; as main template, as included template, as parent of a child template "
+                  "and as macro library that is imported and called); a fourth layout of every run-time failing case and of the cga "
+                  "stream: every tag on a line of its own with the white space around it trimmed ({{- -}} / {%- -%}), so that "
+                  "neighbouring constructs have no instruction on a common line — an error attached to the instruction before / "
+                  "after the failing one then reports a line outside the failing construct; every error of the err stream is additionally formatted in its 5 forms "
                   "into fmt::Write sinks that fail after 0, 1, k/8.., len-1 bytes (a panic there is a failing input).",
 }
 
 CFG_NAMES = {"1": "entry point Environment::render_str", "2": "entry point template_from_named_str", "3": "entry point add_template_owned",
              "4": "entry point render_named_str", "5": "entry point template_from_str",
              "d": "default (debug on)", "x": "debug off", "p": "pass-through custom formatter", "n": "failing custom formatter",
-             "a": "custom auto-escape format", "k": "keep_trailing_newline", "t": "trim_blocks+lstrip_blocks",
+             "a": "custom auto-escape format", "j": "JSON auto-escape", "u": "HTML auto-escape", "k": "keep_trailing_newline", "t": "trim_blocks+lstrip_blocks",
              "c": "custom delimiters", "s": "strict undefined", "m": "semi-strict undefined", "h": "chainable undefined",
              "r": "recursion limit 1", "w": "render_captured_to a writer", "l": "loader-backed, lazily compiled templates"}
 
@@ -1200,7 +1212,7 @@ def run(r):
               "handing through located errors; lazily loaded templates with syntax errors / failing loaders) and syntax errors "
               "planted at every token position of 13 base templates, each under vertical shifts {0,1,2,7,300,up to 65535 lines,70000} x "
               "horizontal shifts {0,1,3 multi-byte,65540 columns} x environment configurations {default, debug off, pass-through / "
-              "failing formatter, custom auto-escape format, keep_trailing_newline, trim+lstrip, custom delimiters, strict / "
+              "failing formatter, custom auto-escape format, JSON / HTML auto-escape, keep_trailing_newline, trim+lstrip, custom delimiters, strict / "
               "semi-strict / chainable undefined, recursion limit 1, writer output, loader-backed} x entry points {render_str, "
               "render_named_str, template_from_str, template_from_named_str, add_template_owned} and, for every run-time failure, the "
               "three layouts with a newline at every / every even / every odd token gap inside the tags (rule there: the report lies "
